@@ -120,7 +120,7 @@ fn gen_operand(r: &mut Rng, depth: u32, out: &mut Vec<J>) {
     }
 }
 
-fn gen_expr(r: &mut Rng, depth: u32, out: &mut Vec<J>) {
+pub fn gen_expr(r: &mut Rng, depth: u32, out: &mut Vec<J>) {
     gen_operand(r, depth, out);
     let n = r.below(if depth >= 2 { 7 } else { 3 });
     for _ in 0..n {
